@@ -51,9 +51,17 @@ def frame_job(cfg):
             ok = got == ref
             why = "circuit differs" if not ok else ""
         except AttributeError as e:
-            ok, why = False, str(e)
-        out.append((ok, f"frame:{n}:{conn}:{orb}", f"readout on {n}-{conn} class orbit {orb}: {why}",
-                    {"n": n, "connectivity": conn, "paulis": [P.to_label(n, (x, z, 0)) for x, z in rows]}))
+            ok, why = None, str(e)          # the code touched .phases: the representation-hiding argument is withdrawn (UNDECIDED); the next clause decides natively
+        labels = [P.to_label(n, (x, z, 0)) for x, z in rows]
+        out.append(("frame", ok, f"frame:{n}:{conn}:{orb}", f"readout on {n}-{conn} class orbit {orb}: {why}", {"n": n, "connectivity": conn, "paulis": labels}))
+        # sign independence observed directly: the readout circuit for several sign vectors (all for n<=3) equals the one for all-plus signs
+        svs = list(__import__("itertools").product((0, 1), repeat=n)) if n <= 3 else [tuple((orb >> q ^ k) & 1 for q in range(n)) for k in (1, 2, 5)] + [tuple([1] * n)]
+        same = True
+        for sv in svs:
+            st3 = Stabilizer((R.copy(), S.copy(), np.array(sv, dtype=np.int8)))
+            same = same and adapt.gates_of(get_readout_circuit(st3, conn)) == ref
+        out.append(("signs", same, f"signs:{n}:{conn}:{orb}", f"readout circuit on {n}-{conn} class orbit {orb} changes with the signs of the generators {labels}",
+                    {"n": n, "connectivity": conn, "paulis": labels}))
     return out
 
 
@@ -81,11 +89,19 @@ def run(ctx: core.Ctx):
     fam = ctx.family("C03.frame.signs_never_read", GROUND, "native", "get_readout_circuit completes on a Stabilizer whose .phases raises, with the same gate list")
     fam.exhaustive = True
     fam.domain = "one member of every class of every advertised configuration"
+    fam2 = ctx.family("C03.readout.sign_independent", GROUND, "native", "the readout circuit is identical for several sign vectors of the same generators (all sign vectors for n<=3)")
+    fam2.exhaustive = True
+    fam2.domain = fam.domain
     for res in core.pmap(frame_job, docs.ADVERTISED, chunks=1):
-        for ok, key, what, rp in res:
-            ctx.record(fam, PROVED if ok else REFUTED, rp if fam.total < 2 else None)
+        for kind, ok, key, what, rp in res:
+            f_ = fam if kind == "frame" else fam2
+            if ok is None:
+                ctx.record(f_, core.UNKNOWN, rp)
+                ctx.undecide(f_, what)
+                continue
+            ctx.record(f_, PROVED if ok else REFUTED, rp if f_.total < 2 else None)
             if not ok:
-                ctx.violate(fam, key, what, rp)
+                ctx.violate(f_, key, what, rp)
     if not ctx.quick:
         groups = list(G.all_groups(5).items())
         jobs5 = []
@@ -114,7 +130,7 @@ def replay(data):
     for r in bad:
         print("REPRODUCED:", r[0], r[3])
     if data["obligation"].startswith("C03.frame"):
-        bad = [r for r in frame_job((inp["n"], inp["connectivity"])) if not r[0]]
+        bad = [r for r in frame_job((inp["n"], inp["connectivity"])) if r[1] is False]
         for r in bad:
-            print("REPRODUCED:", r[2])
+            print("REPRODUCED:", r[3])
     return 1 if bad else 0
